@@ -194,7 +194,7 @@ func c11Exec(c fw.Case) *fw.Result {
 func c11Cases(tier string, seed uint64) []fw.Case {
 	per, split, corner := int64(21), 1, int64(24)
 	if tier == "thorough" {
-		per, split, corner = 105, 8, 240
+		per, split, corner = 420, 48, 960
 	}
 	var cs []fw.Case
 	// enumerated same-instant bursts (seed independent)
